@@ -387,3 +387,10 @@ func (p *Prog) FuncDecl(rel, name string) (*ast.FuncDecl, *packages.Package) {
 	}
 	return nil, nil
 }
+
+func (p *Prog) sizes() types.Sizes {
+	if s := types.SizesFor("gc", p.Arch); s != nil {
+		return s
+	}
+	return types.SizesFor("gc", "amd64")
+}
